@@ -60,7 +60,7 @@ TraceNext ==
              /\ Chk(\A r \in Readers : Len(del'[r]) >= Len(del[r])
                                         /\ SubSeq(del'[r], 1, Len(del[r])) = del[r], "P", e, "C03_Delivery")
              /\ Chk(P_NoDeath, "P", e, "C03_ReaderFailed")
-             /\ Chk(P_RoEnd, "P", e, "C03_RoEnd")
+             /\ Chk(P_RoEndRun, "P", e, "C03_RoEnd")
              /\ Chk(P_Quiet', "P", e, "C03_Quiescent")
         ELSE /\ Chk(P_HW, "P", e, "C03_HWMonotone")
              /\ Chk(P_Del, "P", e, "C03_Delivery")
